@@ -168,6 +168,7 @@ def check_C16(c):
 
 
 def check_C17(c):
+    c.model_check("MC_CApiStream", "MC_CApiStream.cfg", workers=2)
     c.scenario("capi")
     return c.finish("model_checking",
                     "one case = one C stream (deflate or inflate) driven through the extern \"C\" entry points with guard-paged buffers and a random (avail_in, avail_out, flush) schedule, each call mirrored on a Rust twin; plus parameter/misuse table and one-shot helpers",
